@@ -72,6 +72,11 @@ func (e *SpecEnv) evalBool(x *SX) (t *Term, err error) {
 
 // value materialises an SV into a Val.
 func (e *SpecEnv) value(v *SV) Val {
+	if v.Place != nil && v.Place.Kind == PCell {
+		if _, isGhost := v.Place.Elem.(ghostType); isGhost {
+			return e.stateOf(v).cells[v.Place.Cell]
+		}
+	}
 	if v.Place != nil {
 		return e.stateOf(v).load(v.Place)
 	}
@@ -1025,6 +1030,10 @@ func (e *SpecEnv) evalLoc(x *SX) (p *PtrV, all bool, err error) {
 			err = fmt.Errorf("%v", r)
 		}
 	}()
+	// heap("key"): every location of a heap key (for backing arrays that have no name in the function's scope)
+	if x.K == "call" && x.A[0].K == "id" && x.A[0].Name == "heap" && len(x.A) == 2 && x.A[1].K == "str" {
+		return &PtrV{Kind: PHeap, Key: x.A[1].Str}, true, nil
+	}
 	// ghost map element or whole ghost map
 	if x.K == "idx" && x.A[0].K == "id" {
 		if g := e.vc.prog.ghost(x.A[0].Name); g != nil {
